@@ -160,6 +160,8 @@ CURATED = [
                                                   ("bkg", [("shapesys", "ss"), ("staterror", "st"), ("shapefactor", "sf"), ("histosys", "h1")])])], "poi": "mu"}),
     ("staterror-sample-with-zero-nominal-bin", {"channels": [("c1", 2, [("sig", [("normfactor", "mu"), ("staterror", "st")]), ("bkg", [("staterror", "st"), ("normsys", "n1")])])],
                                                 "poi": "mu", "zeros": ["c1.sig.n0"]}),
+    ("mixed-constraint-widths", {"channels": [("c1", 2, [("sig", [("normfactor", "mu"), ("normsys", "n1")]), ("bkg", [("shapesys", "ss"), ("histosys", "a_h")])]),
+                                               ("c2", 3, [("bkg", [("staterror", "st"), ("histosys", "z_h")])])], "poi": "mu"}),
     ("listing-order-unsorted", {"channels": [("zz", 1, [("y", [("normsys", "b"), ("normfactor", "mu"), ("histosys", "a")]), ("x", [("staterror", "st"), ("normsys", "a")])]),
                                               ("aa", 2, [("x", [("staterror", "st2"), ("histosys", "a")])])], "poi": "mu"}),
 ]
